@@ -107,3 +107,15 @@ reg(Check("C12", "exploration",
 reg(Check("SELF", "other", "machinery self tests", [], claimed=False,
           parts=[Part("memdb", "server/store", "^TestVerifMemdb", shards=(1, 1)),
                  Part("vsched", "server", "^TestVerifSched", instr=True, shards=(1, 1))]))
+
+reg(Check("C18", "fault_enumeration",
+          "every transactional operation of the MySQL adapter x every statement position (BEGIN, each EXEC/QUERY/PREPARE, COMMIT) "
+          "x fault kind {generic error, driver.ErrBadConn, context deadline} x sql_timeout {0, >0}, driven through the real adapter "
+          "over a fake database/sql driver; non-trivial = distinct (operation, position, kind, timeout) fault plans that hit a statement",
+          ["the fake driver answers SELECTs from a rule table sized to drive each operation down its longest path",
+           "PostgreSQL / MongoDB / RethinkDB adapters are not covered (no seam offline)"],
+          text="Complete enumeration of single-statement faults for every multi-statement adapter operation.",
+          note="trusted: database/sql's own transaction bookkeeping; fake driver in the harness",
+          technique="exhaustive fault-point enumeration over the real code with an injected driver",
+          engine="E5 sqlfake", claimed=False,
+          parts=[Part("sqlfaults", "server/db/mysql", "^TestVerifC18", tags="mysql", gomaxprocs=4)]))
